@@ -1,7 +1,7 @@
 (* C04 / C05 — facts about the lifetime-lowering state machine of Lifetimes/Elision.v. *)
 From Coq Require Import List Arith Bool Lia.
 Import ListNotations.
-From DV Require Import Lifetimes.Model Lifetimes.Check Lifetimes.Elision.
+From DV Require Import gen.Tables Lifetimes.Model Lifetimes.Check Lifetimes.Elision.
 
 (* ---------- closed forms of the state-passing maps ---------- *)
 Fixpoint assign (k : nat) (ls : list alt) : list lt :=
